@@ -286,6 +286,39 @@ def run(ctx):
                                  f"behaviour; in practice the high bits wrap into a value the "
                                  f"kernel accepts) for arguments outside the encodable range")
 
+    # ------------------------------------------------------------------- R8
+    ctx.rule("C17.R8", "argument parsing is checked: every PyArg_ParseTuple result is "
+             "tested and a failure leaves the function before any parsed variable is "
+             "used (wrong argument types raise TypeError instead of running on "
+             "uninitialised memory)", floor=10)
+    for file, fn in funcs:
+        calls_ = [n for n in C.walk(fn) if n.get("kind") == "CallExpr"
+                  and C.callee(n) in ("PyArg_ParseTuple", "PyArg_ParseTupleAndKeywords")]
+        for c_ in calls_:
+            key = f"{fn['name']}:parse"
+            ok_ = False
+            for ifs in C.walk(fn):
+                if ifs.get("kind") != "IfStmt":
+                    continue
+                ks = C.kids(ifs)
+                if not any(x is c_ for x in C.walk(ks[0])):
+                    continue
+                cond = C.strip(ks[0])
+                neg = cond.get("kind") == "UnaryOperator" and cond.get("opcode") == "!"
+                eq0 = cond.get("kind") == "BinaryOperator" and cond.get("opcode") == "==" \
+                    and C.int_value(C.kids(cond)[1]) == 0
+                if (neg or eq0) and len(ks) > 1 and _always_exits(ks[1]):
+                    ok_ = True
+                elif not (neg or eq0) and len(ks) > 2 and _always_exits(ks[2]):
+                    ok_ = True
+            if ok_:
+                ctx.ok("C17.R8", key, sample=f"{fn['name']}: if (!PyArg_ParseTuple(...)) return")
+            else:
+                ctx.fail("C17.R8", key, fn["_file"], c_.get("_line", 0), fn["name"],
+                         "the result of PyArg_ParseTuple is not tested (or a failure does not "
+                         "leave the function): with a wrong argument type the parsed "
+                         "variables are used uninitialised")
+
     # ------------------------------------------------------------------- R5
     ctx.rule("C17.R5", "no NULL dereference on error paths: Py_DECREF / Py_INCREF is never "
              "applied to a PyObject* local that can still hold the NULL it was "
